@@ -320,7 +320,17 @@ def _worker_call(case):
     assert _REPLAY_FN is not None
     try:
         return _REPLAY_FN(case)
-    except Exception:  # driver crash: machinery failure, reported as such
+    except ApiRaised as e:  # the code under test raised on an input the property says is valid: an observation, a violation
+        return {"failures": [dict(clause="Raised", error=f"{e.kind}: {e.msg[:160]}", where=e.where)], "events": [], "api_raised": True}
+    except Exception as e:  # noqa: BLE001
+        # an exception that was raised INSIDE the code under test (the deepest harness frame lies above the deepest acryo
+        # frame) is an observation about that code; anything else is a crash of the driver: machinery failure
+        tb = traceback.extract_tb(e.__traceback__)
+        last_h = max((i for i, f in enumerate(tb) if "/harness/" in f.filename), default=-1)
+        last_a = max((i for i, f in enumerate(tb) if "/acryo/" in f.filename), default=-1)
+        if last_a > last_h and not isinstance(e, (MemoryError, MachineryError)):
+            where = f"{Path(tb[last_a].filename).name}:{tb[last_a].lineno}"
+            return {"failures": [dict(clause="Raised", error=f"{type(e).__name__}: {str(e)[:160]}", where=where)], "events": [], "api_raised": True}
         return {"machinery_error": traceback.format_exc(), "case": case}
 
 
@@ -474,8 +484,10 @@ class Report:
             wall_s=round(wall, 2),
             violations=len(self.violations),
         )
-        EVIDENCE.mkdir(exist_ok=True)
-        (EVIDENCE / f"{self.prop}.json").write_text(json.dumps(ev, indent=1, default=_jd))
+        # X-checks are extended coverage outside the listed properties: their reports live in extras/, not evidence/
+        edir = (VERIF / "extras") if self.prop.startswith("X") else EVIDENCE
+        edir.mkdir(exist_ok=True)
+        (edir / f"{self.prop}.json").write_text(json.dumps(ev, indent=1, default=_jd))
         for fid, n in sorted(self.known_hits.items()):
             print(f"KNOWN-FINDING: property={self.prop} {fid}: {self.known_what.get(fid, '')} (re-observed {n}x)")
         if self.machinery:
